@@ -949,12 +949,22 @@ Lemma spec_att_other o st cid : s_terminal st = false -> st <> SDetached ->
   spec_att o st cid = if cid =? 0 then ANone else match o with Some ADangling => ADangling | _ => AOn cid end.
 Proof. intros T D. destruct st; try reflexivity; try discriminate; congruence. Qed.
 
+(* circuit id 0 in a non-terminal event: on a well-formed heap the two ways of unlinking do the same *)
+Lemma detach_soft_detach s id soid x : WF s -> In (id, soid) (streams s) -> get_s soid s = Some x ->
+  detach_soft s soid = detach s soid.
+Proof.
+  intros W Hin Gx. unfold detach_soft, detach. rewrite Gx. destruct (s_circ x) as [coid|] eqn:Hc; [|reflexivity].
+  destruct (wf_points _ W (id, soid) x coid Hin Gx Hc) as [c [Gc Cn]]. cbn [snd] in Cn. unfold unlist. rewrite Gc.
+  assert (M : memN soid (c_streams c) = true) by (apply memN_In; apply countN_pos_In; lia).
+  now rewrite M.
+Qed.
+
 Lemma legal_att tv id st cid host port kw :
   ev_legal tv (EStream id st cid host port kw) = true -> s_terminal st = false -> st <> SDetached ->
   match (match kfind ts_id id (tss tv) with Some o => ts_att o | None => ANone end) with
   | ANone => (cid =? 0) || kmem tc_id cid (tcs tv)
-  | AOn c => cid =? c
-  | ADangling => false
+  | AOn c => (cid =? c) || (cid =? 0)
+  | ADangling => cid =? 0
   end = true.
 Proof.
   intros L T D. cbn [ev_legal] in L. rewrite T in L. rewrite !andb_true_iff in L.
@@ -1036,12 +1046,16 @@ Proof.
       rewrite Hcirc. rewrite <- (set_circ_same x1) at 1. rewrite Hci. now apply Hentry. }
     cbn [spec_s ts_att] in Stay. rewrite (spec_att_other _ _ _ T D) in Stay.
     destruct (N.eqb_spec cid 0) as [E0|E0].
-    - (* circuit id 0: only for a stream that is on no circuit *)
-      destruct (abs_att (circuits s) (s_circ x)) as [|c|] eqn:Ea; [| |discriminate La].
-      + apply abs_att_none in Ea as Hn. unfold detach_soft. rewrite G2, Hci, Hn.
-        exists s2. split; [reflexivity|]. split; [exact W2|]. split; [exact C2|]. apply Stay. reflexivity.
-      + exfalso. destruct (abs_att_on s _ _ W Ea) as [Hpos _]. apply N.eqb_eq in La. congruence.
-    - destruct (abs_att (circuits s) (s_circ x)) as [|c|] eqn:Ea; [| |discriminate La].
+    - (* circuit id 0: the stream is on no circuit afterwards, wherever it was *)
+      rewrite (detach_soft_detach s2 id soid x1 W2 Hin2 G2).
+      destruct (detach_sim s2 id soid x1 W2 Hin2 G2) as [s3 [Dt [W3 [Hc3 [Hs3 [G3 [A3 [F1 F2]]]]]]]].
+      exists s3. split; [exact Dt|]. split; [exact W3|].
+      split; [apply (Complete_frame_s s2 s3 soid (set_circ x1 None) C2 Hc3 Hs3 G3 Good1 F1 F2)|].
+      rewrite A3, A2. cbn [tcs tss]. f_equal; [exact Htcs|].
+      rewrite kset_kset by reflexivity. rewrite Hks by reflexivity. f_equal.
+      rewrite Hcirc2. apply Hentry. cbn [spec_s ts_att]. rewrite (spec_att_other _ _ _ T D), E0. reflexivity.
+    - destruct (abs_att (circuits s) (s_circ x)) as [|c|] eqn:Ea;
+        [| |discriminate La].
       + (* not on a circuit: attach to the live circuit cid *)
         apply abs_att_none in Ea as Hn.
         assert (Hk : kmem tc_id cid (tcs (abs s)) = true).
@@ -1061,7 +1075,7 @@ Proof.
         destruct (N.eqb_spec cid 0); [congruence|]. rewrite (abs_att_live s cid coid W Hq).
         destruct Holdatt as [H|[H _]]; rewrite H; reflexivity.
       + (* already on circuit c = cid: nothing changes *)
-        apply N.eqb_eq in La. subst c.
+        rewrite orb_false_r in La. apply N.eqb_eq in La. subst c.
         destruct (abs_att_on s _ _ W Ea) as [_ [coid0 [Hs0 _]]].
         unfold attach. rewrite G2, Hci, Hs0.
         exists s2. split; [reflexivity|]. split; [exact W2|]. split; [exact C2|]. apply Stay.
